@@ -33,6 +33,7 @@ def draw_any(seed, tier, samplers=("smc", "smc", "smc", "importance", "minipcn",
         particles=(12, 40) if quick else (12, 96),
         kernel_steps=(1, 2) if quick else (1, 3),
         checkpoint_modes=("none", "path", "callback", "auto"),
+        int_bounds_prob=0.15,
     )
     base.update(kw)
     scn = draw_smc_scenario(int(rng.integers(1 << 62)), **base)
